@@ -310,3 +310,9 @@ PROPS["C13"]["stub"] = PROPS["C13"].get("stub", []) + [
     "the preemptive mode of EDF/LSF is only shadow-probed (invoked on the live state of greedy-driven runs, where "
     "partially executed RUNNING tasks are offered again; answer checked and discarded)"]
 PROPS["C18"]["streams"] = [G, CH, G_COND, CH_COND, PLAN, G_PRE]
+
+# ------------------------------------------------------------------ C05: planners under "run the scheduler continuously"
+PLAN_F0 = {"profile": "plan", "opts": dict(world.PLAN_OPTS, frequencies=[0], p_zero_runtime=0.5, lookaheads=[2, 5, 20],
+                                             policies=["TetriSchedGurobi", "TetriSchedCPLEX", "TetriSchedGurobi", "ILP"])}
+G_F0 = {"profile": "greedy", "opts": {"p_batch_loader": 0, "frequencies": [0, 0, 1], "zero_runtime": True}}
+PROPS["C05"]["streams"] = [G, G_TIES, G_ENF, G_COND, PLAN, CW, PLAN_F0, PLAN_F0, G_F0]
